@@ -197,6 +197,7 @@ def evidence(agg, tier, seed, wall, batches):
             "calls_on_warm_object(memo filled)": st["warm_calls"], "calls_on_cold_object": st["cold_calls"],
             "answers_that_are_exceptions": st["raise_answers"], "silent_structural_changes(not observable)": st["silent_structural"],
             "tainted_skips": st["tainted_skips"], "undefined_object_skips": st["undef_skips"],
+            "by_value_twin_skip_reasons(kind:deriving op:reason)": {k[10:]: v for k, v in sorted(st.items()) if k.startswith("twin_skip:")},
             "by_value_twin_answers_compared_I5": st["twin_compared"], "by_value_twin_skipped(rebuild not structurally equal / raised)": st["twin_skips"],
         },
         "ordered_op_pairs_on_one_object": pair_cov,
